@@ -187,6 +187,13 @@ def run(ctx):
                 import math
                 grid = [(rng.randint(1, min(4, math.factorial(n))), rng.choice([0.05, 0.2, 0.6]), rng.randrange(100), rng.random() < 0.7,
                          rng.random() < 0.25) for _ in range(2 if ctx.quick else 6)]
+                if 3 <= n <= 4 and (not ctx.quick or gi % 2 == 1):
+                    # requests close to the number of distinct relabellings that exist (n! / |Aut|): the adaptive search
+                    # then runs out of permutations and falls back on its exhaustive pass
+                    a0 = adj_of(g, n)
+                    d = len({tuple(map(tuple, a0[np.ix_(p, p)])) for p in itertools.permutations(range(n))})
+                    for k in sorted({max(1, d - 2), max(1, d - 1), d, min(math.factorial(n), d + 1)}):
+                        grid.append((k, rng.choice([0.05, 0.2, 0.6]), rng.randrange(100), True, False))
                 evs += iso_events(g, n, rng, grid)
             if n >= 2 and (not ctx.quick or gi % 2 == 0):
                 evs += orbit_events(g, n, rng, ctx.quick)
